@@ -292,7 +292,7 @@ func runC05(p *Program, r *Report) {
 
 func runC11(p *Program, r *Report) {
 	pubRules(p, r, "C11")
-	r.Rule("R-C11-1", "object bytes are never written in place: the posix backends create or write files only through openTmpFile temp files; no os.Create / os.WriteFile / os.OpenFile with write flags on an object path (frozen exemptions: backend.MoveFile's exclusive create, sidecar attribute files)", 3)
+	r.Rule("R-C11-1", "object bytes are never written in place: the posix backends create or write files only through openTmpFile temp files; no os.Create / os.WriteFile / os.Truncate / os.OpenFile with write flags on an object path (frozen exemptions: backend.MoveFile's exclusive create, sidecar attribute files)", 3)
 	r.Rule("R-C11-3", "temp files are released: every successful openTmpFile is followed by a deferred cleanup() of that temp file", 5)
 	r.Rule("R-C11-4", "sources outlive publication: in CompleteMultipartUpload (and the version-restore path of DeleteObject) nothing is removed before link() succeeded; the upload directory is removed only after the assembled object is published", 2)
 
@@ -307,7 +307,7 @@ func runC11(p *Program, r *Report) {
 				cn := calleeName(c)
 				bad := false
 				switch cn {
-				case "os.Create", "os.WriteFile", "io/ioutil.WriteFile":
+				case "os.Create", "os.WriteFile", "io/ioutil.WriteFile", "os.Truncate", "syscall.Truncate", "golang.org/x/sys/unix.Truncate":
 					bad = true
 				case "os.OpenFile":
 					if fl, ok := constInt(callArgs(c)[1]); !ok || fl&0x3 != 0 || fl&0x40 != 0 { // O_WRONLY|O_RDWR|O_CREAT
